@@ -298,8 +298,17 @@ fn fuzz(vals: &[ValueStr], n: usize, w: &mut NdjsonWriter, rng: &mut ChaCha8Rng)
             }
             7 => format!("{}{}", v.string, v.string),
             _ => {
-                // whitespace variants of an otherwise valid string (accepted: exercises canonicity)
-                format!("{}{}{}", if rng.gen_bool(0.5) { rand_ws(rng) } else { String::new() }, v.string, if rng.gen_bool(0.5) { rand_ws(rng) } else { String::new() })
+                // whitespace variants of an otherwise valid string (accepted: exercises canonicity), also with the
+                // rarer Unicode White_Space characters (no verdict is predicted for those: accepted => canonical)
+                let mut ws = |rng: &mut ChaCha8Rng| -> String {
+                    match rng.gen_range(0..4) {
+                        0 => String::new(),
+                        1 => EXOTIC_WS[rng.gen_range(0..EXOTIC_WS.len())].to_string(),
+                        _ => rand_ws(rng),
+                    }
+                };
+                let (a, b) = (ws(rng), ws(rng));
+                format!("{}{}{}", a, v.string, b)
             }
         };
         let p = parse(&x);
@@ -467,7 +476,7 @@ fn containers(n: usize, big: bool, w: &mut NdjsonWriter, rng: &mut ChaCha8Rng) -
                 5 if !items.is_empty() => {
                     let i = rng.gen_range(0..items.len());
                     items[i].typecode = *[0u64, 1, 2, 3, 4, 252, 253, 0xFFFF, 0x10000, MAX_TYPECODE, MAX_TYPECODE + 1, 0xFFFF_FFFF, 0x1_0000_0000, u64::MAX,
-                                          items[i].typecode + 1, items[i].typecode.saturating_sub(1)]
+                                          items[i].typecode.saturating_add(1), items[i].typecode.saturating_sub(1)]
                         .choose(rng)
                         .unwrap();
                 }
